@@ -225,7 +225,7 @@ class RefCheck:
         out = bytes(self.get_out())
         if not self.sent.startswith(out):
             self.bad.append(("write:order", op, hx(out), hx(self.sent)))
-        elif k in ("f", "c") and out != self.sent:
+        elif k in ("f", "c", "x") and out != self.sent:
             self.bad.append(("write:flush-incomplete", op, hx(out), hx(self.sent)))
         elif k in ("w", "W"):
             if self.bufsize <= 0 and out != self.sent:
@@ -238,7 +238,12 @@ def run_real(p, f, get_out, check):
     toks = []
     for op in p["ops"]:
         try:
-            tok = apply_op(f, op)
+            if op[0] == "x":  # leaving a ``with`` block
+                with f:
+                    pass
+                tok = "ok"
+            else:
+                tok = apply_op(f, op)
         except IOError as e:
             tok = classify_ioerror(e) or ("X:" + core.exc_site(e))
         except ValueError as e:  # __iter__ on a closed file
@@ -248,6 +253,234 @@ def run_real(p, f, get_out, check):
         toks.append(tok)
         check.after(op, tok)
     return toks
+
+
+class RecChannel:
+    """A recording stand-in for paramiko.Channel: everything the file classes hand to the channel, in order.
+    Like the real Channel, sendall after shutdown_write() raises OSError("Socket is closed")."""
+
+    def __init__(self, inp, rg, err):
+        self.bufs = {"out": inp if not err else b"", "err": inp if err else b""}
+        self.rg = list(rg)
+        self.log = []       # ("out"|"err", bytes) | ("eof",)
+        self.eof_sent = False
+
+    def _recv(self, which, n):
+        k = min(n, self.rg.pop(0) + 1) if self.rg else n
+        d, self.bufs[which] = self.bufs[which][:k], self.bufs[which][k:]
+        return d
+
+    def recv(self, n):
+        return self._recv("out", n)
+
+    def recv_stderr(self, n):
+        return self._recv("err", n)
+
+    def _send(self, which, data):
+        if self.eof_sent:
+            raise OSError("Socket is closed")
+        self.log.append((which, bytes(data)))
+
+    def sendall(self, data):
+        self._send("out", data)
+
+    def sendall_stderr(self, data):
+        self._send("err", data)
+
+    def shutdown_write(self):
+        self.log.append(("eof",))
+        self.eof_sent = True
+
+    def delivered(self, which):
+        return b"".join(e[1] for e in self.log if e[0] == which)
+
+    def before_first_eof(self, which):
+        out = b""
+        for e in self.log:
+            if e[0] == "eof":
+                return out
+            if e[0] == which:
+                out += e[1]
+        return None
+
+
+def gen_chanfile_program(rng):
+    kind = rng.choice(["stdin", "stdin", "stdin", "file", "stderr"])
+    p = gen_program(rng)
+    while "U" in p["mode"]:
+        p = gen_program(rng)
+    if kind == "stdin":
+        p["mode"] = rng.choice(["wb", "w", "wb", "ab", "w+b"])
+        p["bufsize"] = rng.choice([-1, 0, 1, 1, 2, 5, 16, 64, 512, 8192, rng.randrange(2, 4000)])
+        binary = "b" in p["mode"]
+        ops = []
+        for _ in range(rng.randrange(1, 12)):
+            k = rng.choice("wwwwwWft")
+            if k == "w":
+                d = rand_bytes(rng, rng.choice([1, 2, 5, 17, rng.randrange(0, 200)]), ALPHA_BIN if binary else ALPHA_TXT)
+                ops.append(("w", d if binary or rng.random() < 0.5 else d.decode("ascii")))
+            elif k == "W":
+                ops.append(("W", [rand_bytes(rng, rng.randrange(0, 12), ALPHA_TXT) for _ in range(rng.randrange(0, 4))]))
+            else:
+                ops.append((k, None))
+        # how the file is closed: close(), leaving a with block, twice, followed by a late write, or not at all
+        tail = rng.choice([["c"], ["x"], ["c", "c"], ["x", "c"], ["c", "w"], ["f", "c"], []])
+        for k in tail:
+            ops.append(("w", b"late") if k == "w" else (k, None))
+        p["ops"] = ops
+    p["kind"] = kind
+    p["dflt"] = 8192
+    p["wg"] = []
+    p["eofs"] = []
+    return p
+
+
+def chan_request_line(p):
+    return "progc %s %s %d %s %s %s" % (
+        p["kind"], p["mode"], p["bufsize"], hx(p["inp"]), ",".join(map(str, p["rg"])) or "-",
+        " ".join(op_token(o) for o in p["ops"]))
+
+
+def run_recording_channel_cases(ctx, n):
+    """ChannelFile / ChannelStderrFile / ChannelStdinFile (the classes makefile*, exec_command hand out) over a
+    recording channel: the stream is what recv/recv_stderr delivered and what sendall/sendall_stderr/
+    shutdown_write received, in order."""
+    from paramiko.channel import ChannelFile, ChannelStderrFile, ChannelStdinFile
+
+    classes = {"file": ChannelFile, "stderr": ChannelStderrFile, "stdin": ChannelStdinFile}
+    progs = [gen_chanfile_program(ctx.rng) for _ in range(n)]
+    reqs = [chan_request_line(p) for p in progs]
+    replies = ctx.driver("C42", reqs)
+    for i, p in enumerate(progs):
+        which = "err" if p["kind"] == "stderr" else "out"
+        ch = RecChannel(p["inp"], p["rg"], p["kind"] == "stderr")
+        f = classes[p["kind"]](ch, p["mode"], p["bufsize"])
+        get_out = lambda ch=ch, which=which: ch.delivered(which)  # noqa: E731
+        check = RefCheck(p, get_out)
+        toks = run_real(p, f, get_out, check)
+        f.out = ch.delivered(which)
+        ateof = ch.before_first_eof(which)
+        impl = " ".join(toks) + " | out=%s pos=%d realpos=%d rbuf=%s wbuf=%s closed=%d left=%d eofs=%d ateof=%s" % (
+            hx(f.out), f._pos, f._realpos, hx(f._rbuffer), hx(f._wbuffer.getvalue()), 1 if f._closed else 0,
+            len(ch.bufs[which]), sum(1 for e in ch.log if e[0] == "eof"), "none" if ateof is None else hx(ateof))
+        case = {"program": reqs[i]}
+        ctx.case(("chanfile", reqs[i]), any(t == "ok" for t in toks))
+        ctx.dist("channel-class:" + p["kind"])
+        if p["kind"] == "stdin":
+            ctx.dist("stdin:bytes-pending-at-close" if any(
+                o[0] in ("c", "x") for o in p["ops"]) and p["bufsize"] >= 1 else "stdin:other")
+        sigp = "channel%s:" % p["kind"]
+        for t, o in zip(toks, p["ops"]):
+            if t.startswith("X:"):
+                ctx.fail(sigp + "unexpected-exception:" + t[2:], dict(case, op=op_token(o)), t)
+        for sig, op, got, want in check.bad:
+            ctx.fail(sigp + sig, dict(case, op=op_token(op)), "real %s, reference %s" % (got, want))
+        # the property at the end of the file's life: close() delivers everything written, and for the stdin
+        # wrapper the EOF goes out after the last byte, never before
+        if not f._closed:
+            try:
+                f.close()
+            except Exception as e:
+                ctx.fail(sigp + "close-raises:" + core.exc_site(e), case, repr(e))
+        if ch.delivered(which) != check.sent:
+            ctx.fail(sigp + "write:close-incomplete", case,
+                     "channel got %s, written %s" % (hx(ch.delivered(which)), hx(check.sent)))
+        if p["kind"] == "stdin":
+            b4 = ch.before_first_eof("out")
+            if b4 is None:
+                ctx.fail(sigp + "no-eof-after-close", case, "shutdown_write() was never called")
+            elif b4 != check.sent:
+                ctx.fail(sigp + "eof-before-data", case,
+                         "before EOF the channel got %s, written %s" % (hx(b4), hx(check.sent)))
+        elif any(e[0] == "eof" for e in ch.log):
+            ctx.fail(sigp + "unexpected-eof", case, "a plain channel file half-closed the channel")
+        if replies is not None and replies[i] != impl:
+            ctx.disagree("channel file class vs model", case, replies[i], impl)
+
+
+def run_real_stdin_cases(ctx, n):
+    """Thorough tier: Channel.makefile_stdin over a real Transport/Channel pair; the peer reads until EOF."""
+    from paramiko import Transport, RSAKey
+    from tests._loop import LoopSocket
+    from tests._util import _support
+    from tests._stub_sftp import StubServer
+
+    a, b = LoopSocket(), LoopSocket()
+    a.link(b)
+    tc, ts = Transport(a), Transport(b)
+    ts.add_server_key(RSAKey.from_private_key_file(_support("rsa.key")))
+    ev = threading.Event()
+    ts.start_server(ev, StubServer())
+    tc.connect(username="slowdive", password="pygmalion")
+    ev.wait(30)
+    reqs, impls = [], []
+    try:
+        for _ in range(n):
+            p = gen_chanfile_program(ctx.rng)
+            while p["kind"] != "stdin":
+                p = gen_chanfile_program(ctx.rng)
+            p["inp"], p["rg"] = b"", []
+            if not any(o[0] in ("c", "x") for o in p["ops"]):
+                p["ops"].append(("c", None))  # the peer only sees EOF once the file is closed
+            cchan = tc.open_session(timeout=60)
+            schan = ts.accept(60)
+            if schan is None:
+                raise core.InfraError("server side channel not accepted")
+            cchan.settimeout(60)
+            schan.settimeout(60)
+            f = cchan.makefile_stdin(p["mode"], p["bufsize"])
+            sent_box = {"n": 0}
+            orig_write = f._write
+
+            def _write(data, orig_write=orig_write, sent_box=sent_box):
+                k = orig_write(data)
+                sent_box["n"] += k
+                return k
+
+            f._write = _write
+            received = bytearray()
+
+            def get_out(schan=schan, received=received, sent_box=sent_box):
+                while len(received) < sent_box["n"]:
+                    d = schan.recv(sent_box["n"] - len(received))
+                    if not d:
+                        break
+                    received.extend(d)
+                return received
+
+            check = RefCheck(p, get_out)
+            toks = run_real(p, f, get_out, check)
+            case = {"program": chan_request_line(p)}
+            if not f._closed:
+                try:
+                    f.close()
+                except Exception as e:
+                    ctx.fail("channelstdin(real):close-raises:" + core.exc_site(e), case, repr(e))
+            # after close() the peer must see exactly the written bytes and then EOF (recv returns b"")
+            while True:
+                d = schan.recv(65536)
+                if not d:
+                    break
+                received.extend(d)
+            if bytes(received) != check.sent:
+                ctx.fail("channelstdin(real):eof-before-data", case,
+                         "peer read %s then EOF, written %s" % (hx(bytes(received)), hx(check.sent)))
+            for sig, op, got, want in check.bad:
+                ctx.fail("channelstdin(real):" + sig, dict(case, op=op_token(op)), "real %s, reference %s" % (got, want))
+            reqs.append(chan_request_line(p))
+            impls.append(" ".join(toks) + " | out=%s" % hx(bytes(received)))
+            ctx.case(("real-stdin", reqs[-1]), True)
+            ctx.dist("channel-class:stdin(real channel)")
+            cchan.close()
+            schan.close()
+    finally:
+        tc.close()
+        ts.close()
+    replies = ctx.driver("C42", reqs)
+    if replies is not None:
+        for req, impl, rep in zip(reqs, impls, replies):
+            if rep.split(" pos=")[0] != impl:
+                ctx.disagree("makefile_stdin over a real channel vs model", {"program": req}, rep, impl)
 
 
 def run_channel_cases(ctx, n):
@@ -358,7 +591,8 @@ def run(ctx):
                 "bufsize in {-1,0,1,2..65536}, binary and text modes, r/w/a/+ flags, _DEFAULT_BUFSIZE in "
                 "{8192,1,2,7,64}, PRNG short-read and short-write grants, three EOF signalling styles; universal-newline "
                 "('U') modes over CR/CRLF/LF-heavy streams, 70% of them whole-line programs, plus a directed corpus of "
-                "CR-at-chunk-end cases. "
+                "CR-at-chunk-end cases; the channel file classes ChannelFile/ChannelStderrFile/ChannelStdinFile over a "
+                "recording channel (writes, flushes, close / with-exit / double close / late writes; EOF order). "
                 "distinct = distinct request lines; non-trivial = at least one read-type or write op succeeded")
     ctx.trust("UTF-8 decode of text-mode readline results is CPython's (text-mode streams are ASCII; model works on bytes)",
               "universal-newline mode ('U'): modelled (PV/Model/BufFileU.lean) and tied; reference for whole-line calls = "
@@ -402,8 +636,10 @@ def run(ctx):
                 ctx.fail("write:close-incomplete", {"program": reqs[i]}, "stream got %s, written %s" % (hx(bytes(f.out)), hx(check.sent)))
         if replies is not None and replies[i] != impl:
             ctx.disagree("BufferedFile vs model", {"program": reqs[i]}, replies[i], impl)
+    run_recording_channel_cases(ctx, 12000 if ctx.thorough else 1500)
     if ctx.thorough:
         run_channel_cases(ctx, 150)
+        run_real_stdin_cases(ctx, 80)
 
 
 META = {
@@ -422,7 +658,15 @@ META = {
               "programs (return values, stream contents, _pos/_realpos/_rbuffer/_wbuffer) against a real "
               "BufferedFile subclass with PRNG short reads/writes and three EOF styles; thorough tier also a real "
               "ChannelFile over a real Transport/Channel pair with recorded chunking."),
-    "note": ("Binary and text mode (text mode = same bytes, readline result decoded by CPython; text-mode test "
+    "note": ("The BufferedFile subclasses the property's wrappers actually are — ChannelFile, ChannelStderrFile, "
+             "ChannelStdinFile with their _read/_write/close overrides — are driven on every run over a recording "
+             "channel (stream = what recv/recv_stderr delivered and sendall/sendall_stderr/shutdown_write received, in "
+             "order) and tied to PV/Model/ChanFile.lean; proved: stdin_close_delivers_before_eof, "
+             "stdin_eof_after_all_data (for every buffering mode and every program ending in close(), whatever is "
+             "done afterwards, the bytes received before the EOF are exactly the bytes written), "
+             "plain_close_sends_no_eof; thorough tier also makefile / makefile_stdin over a real Transport/Channel "
+             "pair. SFTPFile is C27's subject. " +
+             "Binary and text mode (text mode = same bytes, readline result decoded by CPython; text-mode test "
              "streams are ASCII). Universal-newline mode 'U' (CR/CRLF translation, _at_trailing_cr carried across "
              "calls, newlines attribute): modelled statement by statement in PV/Model/BufFileU.lean on top of the same "
              "BF state and tied on every run by byte-exact correspondence (incl. _at_trailing_cr and newlines) over "
